@@ -22,14 +22,15 @@ class BgoldSolutionChecker(BitcoinSolutionChecker):
         optionally bitwise or'ed with SIGHASH_ANYONECANPAY
         """
 
-        if hash_type & SIGHASH_FORKID != SIGHASH_FORKID:
-            raise self.ScriptError()
-
         return self._signature_for_hash_type_segwit(
             tx_out_script, unsigned_txs_out_idx, hash_type
         )
 
     def _signature_for_hash_type_segwit(self, script: bytes, tx_in_idx: int, hash_type: int) -> int:  # type: ignore[override]
+        # the fork-id bit is mandatory for witness programs as well as for bare scripts
+        if hash_type & SIGHASH_FORKID != SIGHASH_FORKID:
+            raise self.ScriptError()
+
         hash_type |= self.FORKID_BTG << 8
         return from_bytes_32(
             double_sha256(self._segwit_signature_preimage(script, tx_in_idx, hash_type))
